@@ -189,3 +189,146 @@ def judge_queue(cfgc, label, obs):
         if ok:
             return False, "native history is linearizable: %s" % obs
     return True, "native history has no linearization: %s" % obs
+
+
+# --------------------------------------------------------------------------------------------------- C03 (netpoll)
+QUEUE_DEP_NATIVE = '''package queue
+
+import (
+	"sync/atomic"
+
+	"github.com/panjf2000/gnet/v2/internal/vrt"
+)
+
+func vAtomicAddInt32(p *int32, d int32) int32 { vrt.Sched(); return atomic.AddInt32(p, d) }
+func vAtomicLoadInt32(p *int32) int32         { vrt.Sched(); return atomic.LoadInt32(p) }
+'''
+
+NETPOLL_NATIVE = '''package netpoll
+
+import (
+	"sync/atomic"
+
+	"github.com/panjf2000/gnet/v2/internal/vrt"
+)
+
+func vCasInt32(p *int32, o, n int32) bool { vrt.Sched(); return atomic.CompareAndSwapInt32(p, o, n) }
+func vStoreInt32(p *int32, v int32)       { vrt.Sched(); atomic.StoreInt32(p, v) }
+
+func init() {
+	vSchedHook = vrt.Sched
+	vBlockHook = vrt.Block
+}
+'''
+
+NETPOLL_TEST = '''package netpoll
+
+import (
+	"encoding/json"
+	"fmt"
+	"os"
+	"testing"
+	"time"
+
+	"github.com/panjf2000/gnet/v2/internal/vrt"
+)
+
+func TestVReplayConc(t *testing.T) {
+	raw, err := os.ReadFile(os.Getenv("VREPLAY_TAPE"))
+	if err != nil {
+		fmt.Println("VREPLAY-RESULT: {\\"error\\": \\"no tape\\"}")
+		return
+	}
+	var in struct {
+		Threads []string  `json:"thread_fns"`
+		Segs    []vrt.Seg `json:"segments"`
+		Setup   string    `json:"setup"`
+	}
+	_ = json.Unmarshal(raw, &in)
+	vThreadTable[in.Setup]()
+	var fns []func()
+	for _, n := range in.Threads {
+		fns = append(fns, vThreadTable[n])
+	}
+	done := make(chan struct{})
+	go func() { vrt.RunThreads(fns, in.Segs); close(done) }()
+	select {
+	case <-done:
+	case <-time.After(20 * time.Second):
+		fmt.Println("VREPLAY-RESULT: {\\"error\\": \\"timeout\\"}")
+		return
+	}
+	out, _ := json.Marshal(map[string]interface{}{"parked": vrt.Parked, "edge": vEdge, "executed": vExecuted, "accepted": vAccepted, "stamp": vStamp})
+	fmt.Println("VREPLAY-RESULT: " + string(out))
+}
+'''
+
+
+def instrument_poller(src, out, base_rewrite):
+    base_rewrite(src, out)
+    s = open(out).read()
+    n = s.count("atomic.CompareAndSwapInt32(") + s.count("atomic.StoreInt32(")
+    s = s.replace("atomic.CompareAndSwapInt32(", "vCasInt32(").replace("atomic.StoreInt32(", "vStoreInt32(")
+    if n < 2:
+        raise RuntimeError("poller: instrumentation anchors not found")
+    if "atomic." not in s.replace('"sync/atomic"', ""):
+        s += "\nvar _ = atomic.LoadInt32\n"
+    open(out, "w").write(s)
+
+
+def replay_netpoll(prop, unit, cfgc, violation, tape_path):
+    wd = R.unit_workdir(prop, unit)
+    ov, _ = R.build_overlay(prop, unit, native=True)
+    pkgdir = os.path.join(R.REPO, unit["pkgdir"])
+    qdir = os.path.join(R.REPO, "pkg/queue")
+    inst = os.path.join(wd, "rw_lock_free_queue_instrumented.go")
+    instrument_queue(os.path.join(qdir, "lock_free_queue.go"), inst)
+    ov[os.path.join(qdir, "lock_free_queue.go")] = inst
+    qn = os.path.join(wd, "zz_vconc_queue_native.go")
+    open(qn, "w").write(QUEUE_DEP_NATIVE)
+    ov[os.path.join(qdir, "zz_vconc_native.go")] = qn
+    pfile = os.path.join(pkgdir, "poller_epoll_default.go")
+    pinst = os.path.join(wd, "rw_poller_instrumented.go")
+    instrument_poller(pfile, pinst, unit["rewrites"]["pkg/netpoll/poller_epoll_default.go"])
+    ov[pfile] = pinst
+    nat = os.path.join(wd, "zz_vconc_native.go")
+    open(nat, "w").write(NETPOLL_NATIVE)
+    ov[os.path.join(pkgdir, "zz_vconc_native.go")] = nat
+    tst = os.path.join(wd, "zz_vconc_test.go")
+    open(tst, "w").write(NETPOLL_TEST)
+    ov[os.path.join(pkgdir, "zz_vconc_test.go")] = tst
+    setup = unit.get("setup", "VT_Setup")
+    fns = sorted(set(cfgc["threads"]) | {setup})
+    tab = os.path.join(wd, "zz_vthreads.go")
+    open(tab, "w").write("package netpoll\n\nvar vThreadTable = map[string]func(){\n" + "".join('\t"%s": %s,\n' % (f, f) for f in fns) + "}\n")
+    ov[os.path.join(pkgdir, "zz_vthreads.go")] = tab
+    for k in list(ov):
+        if k.endswith("zz_vreplay_test.go") or k.endswith("zz_vtable.go"):
+            del ov[k]
+    t = json.load(open(tape_path))
+    t["setup"] = setup
+    json.dump(t, open(tape_path, "w"), indent=1, default=str)
+    ovf = os.path.join(wd, "overlay_conc_native.json")
+    json.dump({"Replace": ov}, open(ovf, "w"))
+    env = dict(R.GOENV, VREPLAY_TAPE=tape_path)
+    r = subprocess.run(["go", "test", "-v", "-vet=off", "-count=1", "-overlay", ovf, "-run", "^TestVReplayConc$", "-timeout", "120s", "."],
+                       cwd=pkgdir, stdout=subprocess.PIPE, stderr=subprocess.STDOUT, text=True, env=env)
+    m = re.search(r"VREPLAY-RESULT: (.*)", r.stdout)
+    if not m:
+        return False, "replay did not run: " + r.stdout[-800:]
+    obs = json.loads(m.group(1))
+    if "error" in obs:
+        return False, "replay " + obs["error"]
+    label = violation["label"]
+    n = cfgc.get("tasks", 2)
+    ex, ac, stp = obs["executed"][:n], obs["accepted"][:n], obs["stamp"][:n]
+    if label.startswith("C03.no_lost_wakeup"):
+        bad = obs["parked"] and obs["edge"] == 0 and any(a == 1 and e == 0 for a, e in zip(ac, ex))
+        return bad, "native run: parked=%s edge=%s accepted=%s executed=%s" % (obs["parked"], obs["edge"], ac, ex)
+    if label.startswith("C03.at_most_once"):
+        return any(e > 1 for e in ex), "native run: executed=%s" % ex
+    if label.startswith("C03.high_priority_issue_order"):
+        mm = re.search(r"\((\d+) before (\d+)\)", label)
+        a, b = int(mm.group(1)), int(mm.group(2))
+        return bool(stp[a] and stp[b] and stp[a] > stp[b]), "native run: stamps=%s" % stp
+    return False, "no native judge for " + label
